@@ -402,6 +402,45 @@ fn lpg_matrix_ops() -> Vec<MOp> {
     ]
 }
 
+/// Thorough tier: every writer/writer pair of the matrix with a third thread that reads the contended node while both
+/// writers run (the reader must see a state some sequential order explains).
+pub fn lpg_matrix_scenarios_three() -> Vec<Scenario<Lpg>> {
+    let ops = lpg_matrix_ops();
+    let reader: fn(&Lpg, usize) -> String = |o, _| {
+        o.st.get_node(n(2)).map_or("None".to_string(), |x| {
+            let mut l: Vec<String> = x.labels.iter().map(|s| s.to_string()).collect();
+            l.sort();
+            format!("{l:?}{:?}", x.properties.iter().map(|(k, v)| format!("{}={v:?}", k.as_str())).collect::<Vec<_>>())
+        })
+    };
+    let mut v = vec![];
+    for (base, make) in [("plain", lpg_matrix_base as fn() -> Lpg), ("indexed", lpg_matrix_base_indexed as fn() -> Lpg)] {
+        for i in 0..ops.len() {
+            for j in i..ops.len() {
+                let (a, b) = (&ops[i], &ops[j]);
+                if a.0.starts_with("read:") || b.0.starts_with("read:") {
+                    continue;
+                }
+                if (a.3 && b.2) || (b.3 && a.2) {
+                    continue;
+                }
+                let name: &'static str = Box::leak(format!("M3-{base}:{}||{}||reader", a.0, b.0).into_boxed_str());
+                let bname: &'static str = if i == j { Box::leak(format!("{}'", b.0).into_boxed_str()) } else { b.0 };
+                v.push(Scenario {
+                    name,
+                    what: "operation-pair matrix with a concurrent get_node(2) reader: three-thread linearizability",
+                    make,
+                    threads: vec![vec![Op { name: a.0, f: a.1 }], vec![Op { name: bname, f: b.1 }], vec![Op { name: "read:get_node(2)", f: reader }]],
+                    observe: lpg_observe,
+                    invariants: lpg_invariants,
+                    linearizable: true,
+                });
+            }
+        }
+    }
+    v
+}
+
 pub fn lpg_matrix_scenarios() -> Vec<Scenario<Lpg>> {
     let ops = lpg_matrix_ops();
     let mut v = vec![];
